@@ -300,6 +300,25 @@ def run(ctx):
         lines = ["[Song]", "{", f"  Resolution = {res}", f"  Offset = {r.choice(NUMS)}", "}", "[SyncTrack]", "{"] + sync + ["}", "[Events]", "{"] + ev + ["}",
                  f"[{r.choice(['ExpertSingle', 'HardDrums', 'EasyGHLBass'])}]", "{"] + tr + ["}"]
         items.append((f"N-{k}", "\n".join(lines) + "\n", None, "numeric corners"))
+    # every single-character insertion into every line of a small canonical chart (round 12, seeded/C18l / C07l: regex-free
+    # fast paths that test a lane token as a STRING, or validate numbers with int() - 'N 10 0', '7_68 = N 1 0'): one character
+    # from a small alphabet at every position of every line, one edit per file
+    small = ["[Song]", "{", "  Resolution = 192", '  Name = "x"', "}", "[SyncTrack]", "{", "  0 = TS 4", "  0 = B 120000", "  384 = B 90000", "  384 = TS 3 3",
+             "  500 = A 1000", "}", "[Events]", "{", '  0 = E "section a"', '  96 = E "lyric b"', '  192 = E "c"', "}", "[ExpertSingle]", "{", "  0 = N 0 0",
+             "  384 = N 1 96", "  384 = N 5 0", "  400 = S 2 50", "  500 = E solo", "  768 = N 7 10", "}"]
+    alphabet = ["0", "1", "8", "_", "x", "-", "+", ".", "e", " ", "\t", "%", "{", "\u0660", "N"]
+    k = 0
+    for li, ln in enumerate(small):
+        if ln in ("{", "}"):
+            continue
+        for pos in range(len(ln) + 1):
+            for ch in alphabet:
+                if (pos + li + alphabet.index(ch)) % (1 if ctx.tier == "thorough" else 2):
+                    continue
+                text = "\n".join(small[:li] + [ln[:pos] + ch + ln[pos:]] + small[li + 1:]) + "\n"
+                items.append((f"I-{k}", text, ["insert", li, pos, ch], "small canonical chart"))
+                k += 1
+    ctx.extra["single_insertion_files"] = k
     meta = {it[0]: it for it in items}
     pin = {p_[0]: p_[2] for p_ in pinned}
     recs = par.pmap(judge_text, [((it[0], it[1], pin[it[0]]) if it[0] in pin else (it[0], it[1])) for it in items], chunk=300)
